@@ -1,2 +1,267 @@
--- stub: replaced by the component's line-protocol driver
-def main : IO Unit := pure ()
+import CelmaVerif.Base.Proto
+import CelmaVerif.Model.FixedString
+/- line-protocol driver for the fixedstring component (C10, C11); see harness/fixed_string.cpp -/
+open CelmaVerif CelmaVerif.FixedString CelmaVerif.Proto
+
+structure St where
+  c : Cfg := ⟨1, 2 ^ 64, 256⟩
+  cu : Cfg := ⟨9, 2 ^ 64, 256⟩
+  w : Option World := none
+
+def lengthMod (l : Nat) : Nat :=
+  if l < 256 then 2 ^ 8 else if l < 65536 then 2 ^ 16 else if l < 4294967296 then 2 ^ 32 else 2 ^ 64
+
+def fnv (bs : List Nat) : UInt64 :=
+  bs.foldl (fun h b => (h ^^^ (UInt64.ofNat b)) * 1099511628211) 1469598103934665603
+
+def hex64 (v : UInt64) : String :=
+  let n := v.toNat
+  String.join ((List.range 8).reverse.map fun i => hexByte (n / 256 ^ i % 256))
+
+def enc (bs : List Nat) : String :=
+  if bs.length ≤ 48 then hexOut bs else s!"#{bs.length}:{hex64 (fnv bs)}"
+
+def fmtOut (c : Cfg) : Out → String
+  | .unit => "-"
+  | .nat n => toString n
+  | .pos none => "npos"
+  | .pos (some i) => toString i
+  | .int i => if i < 0 then "-1" else if i > 0 then "1" else "0"
+  | .bool b => if b then "1" else "0"
+  | .bytes l => enc l
+  | .byte b => hexByte b
+  | .copied n l => s!"{n}:{enc l}"
+  | .iter i => if i = itEnd c then "end" else toString i
+
+def stateStr (pfx : String) (s : FStr) (cap : Nat) : String :=
+  s!"{pfx}len={s.len} {pfx}buf={enc (s.buf.take (min s.len cap))}"
+
+/-- symbolic numbers: `npos`, `@len`, `@cap`, `@rem` with an optional `+k` / `-k` (saturating at 0) -/
+def num (c : Cfg) (s : FStr) (tk : String) : Option Nat :=
+  let tail (base : Nat) (rest : String) : Option Nat :=
+    if rest.isEmpty then some base
+    else match (rest.drop 1).toString.toNat? with
+      | none => none
+      | some k => if rest.startsWith "+" then some ((base + k) % c.W) else if rest.startsWith "-" then some (base - k) else none
+  let curLen := min s.len c.L
+  if tk.startsWith "npos" then tail (npos c) (tk.drop 4).toString
+  else if tk.startsWith "@len" then tail curLen (tk.drop 4).toString
+  else if tk.startsWith "@cap" then tail c.L (tk.drop 4).toString
+  else if tk.startsWith "@rem" then tail (c.L - curLen) (tk.drop 4).toString
+  else tk.toNat?
+
+def srcOf (pfx : String) (tk : String) : Option (List Nat) :=
+  if tk.startsWith pfx then hexDecode (tk.drop pfx.length).toString else none
+
+def chOf (tk : String) : Option Nat :=
+  match hexDecode tk with
+  | some [b] => some b
+  | _ => none
+
+def selOf (tk : String) : Option Sel :=
+  if tk == "t" then some .t else if tk == "u" then some .u else none
+
+def ilOf (tk : String) : Option (List Nat) :=
+  let l (s : String) : List Nat := s.toList.map Char.toNat
+  match tk with
+  | "il:0" => some []
+  | "il:1" => some (l "x")
+  | "il:2" => some (l "xy")
+  | "il:3" => some (l "pqr")
+  | "il:5" => some (l "vwxyz")
+  | "il:9" => some (l "123456789")
+  | _ => none
+
+def famOf : String → Option Fam
+  | "find" => some .find | "rfind" => some .rfind | "ffo" => some .ffo | "ffno" => some .ffno
+  | "flo" => some .flo | "flno" => some .flno | _ => none
+
+def parse (c : Cfg) (w : World) (toks : List String) : Option Op := do
+  let N (tk : String) : Option Nat := num c w.s tk
+  let I (tk : String) : Option ItArg := if tk == "end" then some .fin else (N tk).map .pos
+  let TI (tk : String) : Option ItArg := if tk == "end" then some .fin else (num c w.s tk).map .pos
+  let P (tk : String) : Option (List Nat) := (srcOf "c:" tk).map (· ++ [0])
+  let S (tk : String) : Option (List Nat) := srcOf "s:" tk
+  match toks with
+  | ["tset", d] => return .tset (← S d)
+  | ["uset", d] => return .uset (← S d)
+  | ["ctor_p", a] => return .ctorP (← P a)
+  | ["ctor_s", d] => return .ctorS (← S d)
+  | ["ctor_f", f] => return .ctorF (← selOf f)
+  | ["ctor_move", "t"] => return .ctorMove
+  | ["ctor_def"] => return .ctorDef
+  | ["assign_p", a] => return .assignP (← P a)
+  | ["assign_s", d] => return .assignS (← S d)
+  | ["assign_f", f] => return .assignF (← selOf f)
+  | ["set_p", a] => return .setP (← P a)
+  | ["set_s", d] => return .setS (← S d)
+  | ["set_f", f] => return .setF (← selOf f)
+  | ["clear"] => return .clear
+  | ["str"] => return .str
+  | ["c_str"] => return .cStr
+  | ["data"] => return .data
+  | ["length"] => return .length
+  | ["empty"] => return .empty
+  | ["at", i] => return .atI (← N i)
+  | ["cat", i] => return .cat (← N i)
+  | ["idx", i] => do let k ← N i; if k > c.L then none else return .idx k
+  | ["front"] => return .front
+  | ["back"] => return .back
+  | ["stream"] => return .stream
+  | ["iter_fwd"] => return .iterFwd
+  | ["iter_cfwd"] => return .iterCFwd
+  | ["iter_rev"] => return .iterRev
+  | ["iter_crev"] => return .iterCRev
+  | ["it_deref", k] => return .itDeref (← N k)
+  | ["it_dist"] => return .itDist
+  | ["insert_icc", i, n, ch] => return .insertICC (← N i) (← N n) (← chOf ch)
+  | ["insert_ipc", i, a, n] => do
+      let a' ← P a; let k ← N n
+      if k > a'.length then none else return .insertIPC (← N i) a' k
+  | ["insert_ip", i, a] => return .insertIP (← N i) (← P a)
+  | ["insert_is", i, d] => return .insertIS (← N i) (← S d)
+  | ["insert_isic", i, d, j, n] => return .insertISIC (← N i) (← S d) (← N j) (← N n)
+  | ["insert_if", i, f] => return .insertIF (← N i) (← selOf f)
+  | ["insert_ific", i, f, j, n] => return .insertIFIC (← N i) (← selOf f) (← N j) (← N n)
+  | ["insert_itc", p, ch] => return .insertItC (← I p) (← chOf ch)
+  | ["insert_itcc", p, n, ch] => return .insertItCC (← I p) (← N n) (← chOf ch)
+  | ["insert_itil", p, il] => return .insertItIl (← I p) (← ilOf il)
+  | ["erase", i, n] => return .erase (← N i) (← N n)
+  | ["erase_i", i] => return .eraseI (← N i)
+  | ["erase_0"] => return .erase0
+  | ["erase_it", p] => return .eraseIt (← I p)
+  | ["erase_itit", p, q] => return .eraseItIt (← I p) (← I q)
+  | ["push_back", ch] => return .pushBack (← chOf ch)
+  | ["pop_back"] => return .popBack
+  | ["append_cc", n, ch] => return .appendCC (← N n) (← chOf ch)
+  | ["append_s", d] => return .appendS (← S d)
+  | ["append_f", f] => return .appendF (← selOf f)
+  | ["append_spc", d, p, n] => return .appendSPC (← S d) (← N p) (← N n)
+  | ["append_sp", d, p] => return .appendSP (← S d) (← N p)
+  | ["append_fpc", f, p, n] => return .appendFPC (← selOf f) (← N p) (← N n)
+  | ["append_fp", f, p] => return .appendFP (← selOf f) (← N p)
+  | ["append_pc", a, n] => return .appendPC (← P a) (← N n)
+  | ["append_p", a] => return .appendP (← P a)
+  | ["append_itit", x, y] => do
+      let x' ← TI x; let y' ← TI y
+      if itPos (abs w.t) x' > itPos (abs w.t) y' then none else return .appendItIt x' y'
+  | ["add_f", f] => return .addF (← selOf f)
+  | ["add_s", d] => return .addS (← S d)
+  | ["add_p", a] => return .addP (← P a)
+  | ["add_c", ch] => return .addC (← chOf ch)
+  | ["sprintf", a] => return .sprintf (← P a)
+  | ["sprintf2", a, v] => return .sprintf2 (← P a) (← N v)
+  | ["cmp_f", f] => return .cmpF (← selOf f)
+  | ["cmp_s", d] => return .cmpS (← S d)
+  | ["cmp_p", a] => return .cmpP (← P a)
+  | ["cmp_ccf", p, n, f] => return .cmpCCF (← N p) (← N n) (← selOf f)
+  | ["cmp_ccs", p, n, d] => return .cmpCCS (← N p) (← N n) (← S d)
+  | ["cmp_ccp", p, n, a] => return .cmpCCP (← N p) (← N n) (← P a)
+  | ["cmp_ccfcc", p, n, f, p2, n2] => return .cmpCCFCC (← N p) (← N n) (← selOf f) (← N p2) (← N n2)
+  | ["cmp_ccscc", p, n, d, p2, n2] => return .cmpCCSCC (← N p) (← N n) (← S d) (← N p2) (← N n2)
+  | ["cmp_ccpc", p, n, a, n2] => return .cmpCCPC (← N p) (← N n) (← P a) (← N n2)
+  | ["sw_f", f] => return .swF (← selOf f)
+  | ["sw_s", d] => return .swS (← S d)
+  | ["sw_p", a] => return .swP (← P a)
+  | ["sw_c", ch] => return .swC (← chOf ch)
+  | ["ew_f", f] => return .ewF (← selOf f)
+  | ["ew_s", d] => return .ewS (← S d)
+  | ["ew_p", a] => return .ewP (← P a)
+  | ["ew_c", ch] => return .ewC (← chOf ch)
+  | ["ct_f", f] => return .ctF (← selOf f)
+  | ["ct_s", d] => return .ctS (← S d)
+  | ["ct_p", a] => return .ctP (← P a)
+  | ["ct_c", ch] => return .ctC (← chOf ch)
+  | ["rep_ccf", p, n, f] => return .repCCF (← N p) (← N n) (← selOf f)
+  | ["rep_ccs", p, n, d] => return .repCCS (← N p) (← N n) (← S d)
+  | ["rep_ccfcc", p, n, f, p2, n2] => return .repCCFCC (← N p) (← N n) (← selOf f) (← N p2) (← N n2)
+  | ["rep_ccfc", p, n, f, p2] => return .repCCFC (← N p) (← N n) (← selOf f) (← N p2)
+  | ["rep_ccscc", p, n, d, p2, n2] => return .repCCSCC (← N p) (← N n) (← S d) (← N p2) (← N n2)
+  | ["rep_ccsc", p, n, d, p2] => return .repCCSC (← N p) (← N n) (← S d) (← N p2)
+  | ["rep_ccp", p, n, a] => return .repCCP (← N p) (← N n) (← P a)
+  | ["rep_ccpc", p, n, a, n2] => return .repCCPC (← N p) (← N n) (← P a) (← N n2)
+  | ["rep_cccc", p, n, n2, ch] => return .repCCCC (← N p) (← N n) (← N n2) (← chOf ch)
+  | ["rep_itit_itit", f, l, x, y] => do
+      let x' ← TI x; let y' ← TI y
+      if itPos (abs w.t) x' > itPos (abs w.t) y' then none else return .repItItItIt (← I f) (← I l) x' y'
+  | ["rep_itit_sit", f, l, d, i, j] => do
+      let d' ← S d; let i' ← N i; let j' ← N j
+      if i' > j' ∨ j' > d'.length then none else return .repItItSIt (← I f) (← I l) d' i' j'
+  | ["rep_itit_pc", f, l, a, n2] => do
+      let a' ← P a; let k ← N n2
+      if k > a'.length then none else return .repItItPC (← I f) (← I l) a' k
+  | ["rep_itit_p", f, l, a] => return .repItItP (← I f) (← I l) (← P a)
+  | ["rep_itit_cc", f, l, n2, ch] => return .repItItCC (← I f) (← I l) (← N n2) (← chOf ch)
+  | ["rep_itit_il", f, l, il] => return .repItItIl (← I f) (← I l) (← ilOf il)
+  | ["substr", p, n] => return .substr (← N p) (← N n)
+  | ["substr_p", p] => return .substrP (← N p)
+  | ["copy", n, p] => return .copy (← N n) (← N p)
+  | ["copy_c", n] => return .copyC (← N n)
+  | ["swap", "t"] => return .swap
+  | ["eq", f] => return .eq (← selOf f)
+  | ["ne", f] => return .ne (← selOf f)
+  | op :: args =>
+    match op.splitOn "_" with
+    | [fam, kind] => do
+      let fam ← famOf fam
+      match kind, args with
+      | "f", ["t", p] => return .search fam (.f (some (← N p)))
+      | "f0", ["t"] => return .search fam (.f none)
+      | "s", [d, p] => return .search fam (.s (← S d) (some (← N p)))
+      | "s0", [d] => return .search fam (.s (← S d) none)
+      | "ppc", [a, p, n] => do
+          let a' ← P a; let k ← N n
+          if k > a'.length then none else return .search fam (.ppc a' (← N p) k)
+      | "pp", [a, p] => return .search fam (.pp (← P a) (some (← N p)))
+      | "p0", [a] => return .search fam (.pp (← P a) none)
+      | "c", [ch, p] => return .search fam (.c (← chOf ch) (some (← N p)))
+      | "c0", [ch] => return .search fam (.c (← chOf ch) none)
+      | _, _ => none
+    | _ => none
+  | _ => none
+
+def isItMut : Op → Bool
+  | .insertItC .. | .insertItCC .. | .insertItIl .. | .eraseIt .. | .eraseItIt .. => true
+  | _ => false
+
+def render (c : Cfg) (op : Op) (w w' : World) (status r : String) : String :=
+  let s := w'.s
+  let sl := match cstrlen s.buf with | .ok n => toString n | _ => "oob"
+  let tpart := match op with | .swap => " " ++ stateStr "t." w'.t c.L | _ => ""
+  let x := abs w.s
+  let big := npos c
+  let (er, et) := match spec (fun n => min n (c.L + 1)) big w op with
+    | .ok (t, o) => ((if isItMut op then "*" else fmtOut c o), t)
+    | .throw e => ("throw:" ++ e.name, x)
+    | .oob wh => ("oob:" ++ wh, x)
+  let cut := et.take c.L
+  let dom := if inDomain big w op then "1" else "0"
+  s!"{status} r={r} {stateStr "" s c.L} sl={sl} all={hex64 (fnv s.buf)}{tpart} e.r={er} e.len={cut.length} e.buf={enc cut} dom={dom}"
+
+def step' (st : St) (line : String) : St × String :=
+  match tokens line with
+  | ["case", _] => ({}, "ok")
+  | ["new", l] =>
+    match l.toNat? with
+    | some l =>
+      let c : Cfg := ⟨l, 2 ^ 64, lengthMod l⟩
+      let cu : Cfg := ⟨9, 2 ^ 64, 256⟩
+      ({ c := c, cu := cu, w := some (World.init c cu) }, "ok")
+    | none => (st, "bad-op")
+  | toks =>
+    match st.w with
+    | none => (st, "bad-op")
+    | some w =>
+      match parse st.c w toks with
+      | none => (st, "bad-op")
+      | some op =>
+        match step st.c st.cu w op with
+        | .ok (w', o) =>
+          match op with
+          | .tset _ => ({ st with w := some w' }, "ok " ++ stateStr "" w'.t st.c.L)
+          | .uset _ => ({ st with w := some w' }, "ok " ++ stateStr "" w'.u st.cu.L)
+          | _ => ({ st with w := some w' }, render st.c op w w' "ok" (fmtOut st.c o))
+        | .throw e => (st, render st.c op w w s!"throw {e.name}" s!"throw:{e.name}")
+        | .oob wh => (st, s!"oob {wh}")
+
+def main : IO Unit := run ({} : St) step'
